@@ -154,3 +154,72 @@ def shell_escape(p):
     if _UNSAFE.search(p) is None:
         return p
     return "'" + p.replace("'", "'\\''") + "'"
+
+
+def manifest(text):
+    """Evaluate a whole manifest (the subset bfg9000 writes: comments, file-level bindings, rule
+    blocks, build statements with indented bindings, default).  File-level bindings and build
+    bindings are evaluated when read, with the file scope *as it is at that point*; rule bindings
+    are kept raw and evaluated per edge.  Returns (filevars, rules, builds) or None."""
+    filevars = []
+    rules = {}
+    builds = []
+    cur = None           # ('rule', name) or ('build', dict)
+    for line in text.split('\n'):
+        if line == '' or line.lstrip(' ').startswith('#'):
+            if line == '':
+                cur = None
+            continue
+        if line.startswith('  '):
+            if cur is None:
+                return None
+            body = line.lstrip(' ')
+            k = body.find(' = ')
+            if k < 0:
+                return None
+            name, rhs = body[:k], body[k + 3:]
+            if cur[0] == 'rule':
+                rules[cur[1]].append((name, rhs))
+            else:
+                v = value(rhs, filevars)
+                if v is None:
+                    return None
+                cur[1]['vars'].append((name, v))
+            continue
+        if line.startswith('rule '):
+            cur = ('rule', line[5:])
+            rules[cur[1]] = []
+            continue
+        if line.startswith('build '):
+            b = build_line(line, filevars)
+            if b is None:
+                return None
+            b['vars'] = []
+            builds.append(b)
+            cur = ('build', b)
+            continue
+        if line.startswith('default '):
+            cur = None
+            continue
+        k = line.find(' = ')
+        if k < 0:
+            return None
+        v = value(line[k + 3:], filevars)
+        if v is None:
+            return None
+        filevars = [(line[:k], v)] + filevars
+        cur = None
+    return filevars, rules, builds
+
+
+def command_of(man, output):
+    """the command ninja runs to produce `output` (None if there is no such non-phony edge)"""
+    filevars, rules, builds = man
+    for b in builds:
+        if output in b['outputs'] and b['rule'] != 'phony':
+            env = [('in', ' '.join(shell_escape(i) for i in b['inputs'])),
+                   ('out', ' '.join(shell_escape(o) for o in b['outputs']))] + b['vars'] + filevars
+            for name, rhs in rules[b['rule']]:
+                if name == 'command':
+                    return value(rhs, env)
+    return None
